@@ -315,6 +315,11 @@ def _step(s: Ref, mn: str, ops: list) -> None:
             da, sa = d_addr0, s_addr0
             d_int, s_int = da >= IMEM, sa >= IMEM
             for _ in range(n):
+                for cur, internal in ((da, d_int), (sa, s_int)):
+                    if internal and not (IMEM <= cur <= IMEM + 0xFF):
+                        # internal block runs past offset 0x00/0xFF: not described by the README, but both cores wrap inside
+                        # the window - disagreement here is NOT covered by the external-space finding
+                        raise Unjudged("imem_move_block_wrap")
                 if not ok(da) or not ok(sa) or (da >= IMEM) != d_int or (sa >= IMEM) != s_int:
                     raise Unjudged("block_leaves_its_address_space")
                 s.mwr(da, s.mrd(sa))
